@@ -33,8 +33,12 @@ Section Proofs.
     split; [ table; cbv [into_col_ok yields_list]; ylist | ].
     split; [ table; cbv [slice_ok yields_list]; ylist | ].
     split; [ table; cbv [counts_ok]; intros a; crun_unfold; reflexivity | ].
-    table; cbv [display_ok]; intros a; do 2 eexists; (split; [ crun_unfold; reflexivity | split; [ reflexivity | split; [ reflexivity | ] ] ]);
-      veq_cases; lin_unfold; reflexivity.
+    split; [ table; cbv [display_ok]; intros a; do 2 eexists; (split; [ crun_unfold; reflexivity | split; [ reflexivity | split; [ reflexivity | ] ] ]);
+      veq_cases; lin_unfold; reflexivity | ].
+    split; [ unfold t_display_fmt; table; cbv [display_fmt_ok display_ok]; (split;
+      [ intros a; do 2 eexists; (split; [ crun_unfold; reflexivity | split; [ reflexivity | split; [ reflexivity | ] ] ]); veq_cases; lin_unfold; reflexivity
+      | intros a; do 4 eexists; (split; [ crun_unfold; reflexivity | split; [ crun_unfold; reflexivity | reflexivity ] ]) ]) | ].
+    unfold t_display_layout; table; cbv [display_layout_ok]; intros a b; do 3 eexists; (split; crun_unfold; reflexivity).
   Qed.
 
   Lemma C03_transform : C03_transform_stmt C.
